@@ -131,6 +131,25 @@ def alphabet():
         def coll(c, r=r):
             return tuple(m(c).collect_fee(pos_of(c, r)))
         ops[f"collect[{r}]"] = (coll, EXACT, False)
+        for lim in ("all-base,half-quote", "half-base,all-quote"):
+            def coll_lim(c, r=r, lim=lim):
+                mk = m(c)
+                p = mk.positions[pos_of(c, r)]
+                pb, pq = bq(c, p.pending_amount0, p.pending_amount1)
+                lb, lq = (pb, pq / 2) if lim.startswith("all-base") else (pb / 2, pq)
+                max0, max1 = (lq, lb) if c.orient == "q0" else (lb, lq)  # the API takes token0 / token1 limits
+                return tuple(mk.collect_fee(pos_of(c, r), max0, max1))
+            ops[f"collect[{r},{lim}]"] = (coll_lim, EXACT, True)
+        for edge in ("low-price-end", "high-price-end"):
+            def add_at(c, r=r, edge=edge):
+                # deposit at a price EXACTLY on a range end, given as a tick (exact in both orientations, unlike a 35-digit price): in the token0-quote
+                # pool the low-price end of a range is its UPPER tick, in the mirror its LOWER tick
+                mk = m(c)
+                lo, hi = c.rng[r]
+                at = (hi if edge == "low-price-end" else lo) if c.orient == "q0" else (lo if edge == "low-price-end" else hi)
+                ret = mk.add_liquidity_by_tick(lo, hi, bal(c, mk.base_token) / 5, bal(c, mk.quote_token) / 5, tick=at)
+                return (ret[1], ret[2], ret[3])
+            ops[f"add_at_edge[{r},{edge}]"] = (add_at, EXACT, True)
 
         def status(c, r=r):
             mk = m(c)
@@ -214,7 +233,7 @@ def state_of(ctx):
 
 
 class Explorer:
-    def __init__(self, part, state, decimals, depth, max_dev):
+    def __init__(self, part, state, decimals, depth, max_dev, first=None):
         self.part = part
         self.case0 = {"state": state, "decimals": list(decimals)}
         self.ops = alphabet()
@@ -222,6 +241,7 @@ class Explorer:
         self.max_dev = max_dev
         self.a, self.b = make_pair(state, decimals)
         self.seen = set()
+        self.first = first  # (k, n): at the root only every n-th label starting at k is expanded (partition of the search over workers)
 
     def enabled(self):
         mk = self.a.adapters[0].market
@@ -230,6 +250,8 @@ class Explorer:
         for lab in self.ops:
             r = lab[lab.index("[") + 1:].split(",")[0].rstrip("]") if "[" in lab else None
             needs_pos = lab.startswith(("remove[", "collect[", "position_status[", "estimate_liquidity["))
+            if lab.startswith("add_at_edge[") and r not in ("in", "wide"):
+                continue
             if needs_pos and r not in have:
                 continue
             out.append(lab)
@@ -283,7 +305,10 @@ class Explorer:
                 self.part.count("complete")
                 return
             sa, sb = self.a.snapshot(), self.b.snapshot()
-            for lab in self.enabled():
+            labs = self.enabled()
+            if d == 0 and self.first is not None:
+                labs = labs[self.first[0]::self.first[1]]
+            for lab in labs:
                 isdev = self.ops[lab][2]
                 if isdev and dev >= self.max_dev:
                     continue
@@ -300,18 +325,18 @@ class Explorer:
 
 
 def work(args):
-    seed, state, decimals, depth, max_dev = args
+    seed, state, decimals, depth, max_dev, first = args
     part = Part(seed)
-    Explorer(part, state, tuple(decimals), depth, max_dev).run()
+    Explorer(part, state, tuple(decimals), depth, max_dev, first).run()
     part.sample({"state": state, "decimals": list(decimals)}, every=1)
     return part.result()
 
 
 def main(run: Run):
-    depth, max_dev = run.pick((2, 1), (3, 1))
-    decs = [(6, 18), (8, 18)]
-    states = list(STATES) if run.thorough else ["below", "just-below", "just-inside-low", "inside", "inside-off-grid", "just-above", "above"]
-    jobs = run.rotate([(run.seed, s, d, depth, max_dev) for s in states for d in decs])
+    depth, max_dev = run.pick((3, 1), (3, 2))
+    decs = [(6, 18), (8, 18)] if run.thorough else [(6, 18)]
+    states = list(STATES) if run.thorough else ["below", "just-below", "inside", "inside-off-grid", "just-above", "above"]
+    jobs = run.rotate([(run.seed, s, d, depth, max_dev, (k, 4)) for s in states for d in decs for k in range(4)])
     for r in pmap(work, jobs):
         run.merge(r)
     c = run.counters
